@@ -7,6 +7,7 @@ import (
 	"go/constant"
 	"go/token"
 	"go/types"
+	"os"
 	"regexp"
 	"strings"
 
@@ -1292,15 +1293,27 @@ var fieldNeverReadMemo = map[string]bool{}
 // loaded, never has its address passed on, and its struct is never copied as a value, compared
 // or handed to anything that could read it by reflection (the struct type is unexported).
 func fieldNeverRead(prog *ssa.Program, fa *ssa.FieldAddr) bool {
+	return fieldNeverReadOpt(prog, fa, false)
+}
+
+// fieldNeverReadOpt: with exportedTypeOK the struct type may be exported as long as the field itself
+// is not (code outside the module cannot name the field; it could still print the struct).
+func fieldNeverReadOpt(prog *ssa.Program, fa *ssa.FieldAddr, exportedTypeOK bool) bool {
 	pt, ok := fa.X.Type().Underlying().(*types.Pointer)
 	if !ok {
 		return false
 	}
 	nt, ok := pt.Elem().(*types.Named)
-	if !ok || nt.Obj().Exported() {
+	if !ok {
 		return false
 	}
-	key := nt.String() + "#" + fmt.Sprint(fa.Field)
+	if nt.Obj().Exported() {
+		st, isSt := nt.Underlying().(*types.Struct)
+		if !exportedTypeOK || !isSt || fa.Field >= st.NumFields() || st.Field(fa.Field).Exported() {
+			return false
+		}
+	}
+	key := nt.String() + "#" + fmt.Sprint(fa.Field) + fmt.Sprint(exportedTypeOK)
 	if v, ok := fieldNeverReadMemo[key]; ok {
 		return v
 	}
@@ -1329,8 +1342,13 @@ func fieldNeverRead(prog *ssa.Program, fa *ssa.FieldAddr) bool {
 						res = false
 					}
 				case *ssa.MakeInterface:
-					if types.Identical(x.X.Type(), pt.Elem()) || types.Identical(x.X.Type(), fa.X.Type()) {
+					// (relaxed mode: an unexported field that no code loads is visible to reflection-based
+					// printing only; JSON and templates skip it)
+					if !exportedTypeOK && (types.Identical(x.X.Type(), pt.Elem()) || types.Identical(x.X.Type(), fa.X.Type())) {
 						res = false // the struct (or a pointer to it) goes into an interface: it could be printed
+						if os.Getenv("VERIF_DEBUG_NEVERREAD") != "" {
+							fmt.Fprintln(os.Stderr, "NEVERREAD iface", key, f, prog.Fset.Position(x.Pos()))
+						}
 					}
 				}
 			}
